@@ -332,7 +332,9 @@ pub const C09: Registry = &[
 
 pub fn c09(ctx: &mut Ctx) -> Search {
     let t = ctx.thorough;
-    let mut mems_kib: Vec<u64> = vec![8, 9, 10, 11, 12, 13, 15, 16, 17, 31, 32, 33, 63, 64];
+    // (segment length = m/4 blocks: above 128 the Argon2i address blocks are generated several times per segment, so sizes
+    //  with m/4 > 128 and not a multiple of 128 are in both tiers)
+    let mut mems_kib: Vec<u64> = vec![8, 9, 10, 11, 12, 13, 15, 16, 17, 31, 32, 33, 63, 64, 1000, 1500, 2600];
     if t {
         mems_kib.extend_from_slice(&[65, 100, 127, 128, 129, 255, 256, 1000, 1024, 1025, 4096]);
     }
@@ -928,7 +930,8 @@ pub const C12: Registry = &[("kdf_derive", kdf_derive), ("kdf_bad_length", kdf_d
 pub fn c12(ctx: &mut Ctx) -> Search {
     let t = ctx.thorough;
     let ids: [u64; 7] = [0, 1, 2, 1 << 32, 1 << 63, u64::MAX - 1, u64::MAX];
-    let mut contexts: Vec<[u8; 8]> = vec![*b"Examples", [0u8; 8], [0xffu8; 8], *b"ctx\0\0\0\0\0"];
+    // (contexts are 8 arbitrary bytes, not C strings: zero bytes in front of / between non-zero bytes included)
+    let mut contexts: Vec<[u8; 8]> = vec![*b"Examples", [0u8; 8], [0xffu8; 8], *b"ctx\0\0\0\0\0", [1, 0, 0, 0, 0, 0, 0, 2], [0, 0, 0, 0, 0, 0, 0, 1], [0, b'a', b'b', 0, b'c', 0, 0, b'd']];
     let rounds = if t { 8 } else { 1 };
     for _ in 0..rounds {
         contexts.push(ctx.rng.arr());
